@@ -166,6 +166,14 @@ func drawAPICall(t *rapid.T) *APICall {
 			c.Div, c.Prec = 1, 0
 		}
 	}
+	// the same resource-shaped bound for the floating-point offsetter, whose delta is divided by
+	// Div and multiplied by 10^precision before it reaches the integer offsetter (a single point
+	// with a round end becomes an ellipse of pi*sqrt(scaled radius) vertices)
+	if c.Fn == "InflatePathsD" && (c.ET == 4 || c.JT == 3) && c.Prec >= -8 && c.Prec <= 8 {
+		if k := math.Pow(10, float64(c.Prec)) / c.Div; math.Abs(c.F[0])*k > 1e9 {
+			c.F[0] = math.Copysign(1e9/k, c.F[0])
+		}
+	}
 	return c
 }
 
